@@ -43,11 +43,56 @@ SHORT = {
     "C20": "a STOPPED report frees the slot AND the reaping does: refCount under-counts",
     "C20-2": "refill decision uses registered children instead of registered + reserved",
 }
+SHORT.update({
+    "C01-3": "parser: after the first `-` of an additive chain every later `+` becomes a subtraction",
+    "C01-4": "`*^` exponent mark replaced by nothing when the literal is converted (125*^12 = 12512)",
+    "C02-3": "输出 in a branch/loop that is the LAST statement of a body yields 空 instead of its value",
+    "C02-4": "list index of 遍历 not advanced on a pass that ends with 继续循环",
+    "C03-3": "statement line break detected from token START lines: a multi-line text followed by more tokens is rejected",
+    "C03-4": "`* / | %` parsed right-associatively",
+    "C04-3": "keyword 以 no longer cut out when it directly follows a name character",
+    "C04-4": "number DFA: state after E/e merged with the state after `*^` (3e8 accepted)",
+    "C05-3": "a lexer error in the look-ahead after a comment is swallowed: truncated tree, no error",
+    "C05-4": "input-variable / expression text without statements: nil dereference (lost guard)",
+    "C06-3": "scope lookup cache not invalidated by a declaration (shadowing broken right after a read)",
+    "C06-4": "令： block: a 恒为 line after a = line is declared mutable",
+    "C07-3": "multi-name declaration copies the value once for all names",
+    "C07-4": "`X = <call>` skips the copy (后增 / 读取 results share storage)",
+    "C08-3": "every call of a chain 以X（a）、（b） runs on the chain's root",
+    "C08-4": "得到 name of a method call updated if it exists (outer variable overwritten) - rebased, see meta.json",
+    "C09-3": "an exception reaching a 每当 loop is treated like 结束循环",
+    "C09-4": "a handler without 输出 yields the value of its last statement instead of 空",
+    "C10-3": "literal with a repeated key keeps the key twice in the order list: 移除 panics",
+    "C10-4": "遍历 over a list: round count fixed, items read live - shrinking the list in the body panics",
+    "C11-3": "second import of a library in one run fails with the name Go's map iteration yields first",
+    "C11-4": "包含/寻找 on dictionaries: single pass over the Go map (error or 假 depending on order)",
+    "C12-3": "移除 fills the hole with the LAST key (swap-remove): insertion order lost",
+    "C12-4": "逆序 leaves the innermost pair of an even-length list unswapped",
+    "C13-3": "consecutive line breaks inside a text literal collapse to the first",
+    "C13-4": "BOM check stays armed for later read blocks (U+FEFF at a 4096 boundary inside a literal dropped)",
+    "C14-3": "取样 ends its byte range one BYTE after the start of the last character",
+    "C14-4": "{#} of whole numbers printed as integers (6-significant-digit rule lost, -0 loses its sign)",
+    "C15-3": "a library imported by two modules of one program: redeclaration error",
+    "C15-4": "a file consisting of import statements only has its imports skipped",
+    "C16-3": "constructor guard loosened: 如何新建‹library type›？ accepted again",
+    "C16-4": "`Fork()` returns the receiver when no program is loaded yet (two requests share one interpreter)",
+    "C17-3": "ASCII fast path accepts the byte 0x80",
+    "C17-4": "`ReadAll` reads the file as one block: an incomplete last character is silently dropped",
+    "C18-3": "statement line taken with a forward-only line hint: multi-line statements get the line of their last token",
+    "C18-4": "marker column computed on bytes instead of characters",
+    "C19-3": "integral doubles written through int64 (>= 2^63 and ±Inf become -9223372036854775808)",
+    "C19-4": "encoder buffer from a pool, reset only on success: the text after a refused generation starts with leftovers",
+    "C20-3": "the two spawn goroutines share one batch-size variable",
+    "C20-4": "one timer per worker, armed at start-up: the first request after a long idle period is timed out at once",
+})
 FIRST = {  # own check, first round (before strengthening): rc as observed on 2026-09-23
     "C01": 0, "C01-2": 0, "C02": 1, "C02-2": 0, "C03": 0, "C03-2": 0, "C04": 1, "C04-2": 2, "C05": 0, "C05-2": 1, "C06": 0, "C06-2": 0, "C07": 1, "C07-2": 0,
     "C08": 0, "C08-2": 0, "C09": 0, "C09-2": 1, "C10": 1, "C10-2": 0, "C11": 2, "C11-2": 0, "C12": 0, "C12-2": 0, "C13": 0, "C13-2": 0, "C14": 1, "C14-2": 0,
     "C15": 1, "C15-2": 0, "C16": 0, "C16-2": 0, "C17": 1, "C17-2": 1, "C18": 0, "C18-2": 1, "C19": 0, "C19-2": 1, "C20": 1, "C20-2": 1,
 }
+w2 = json.load(open(os.path.join(V, "seeded", "wave2_first_pass.json")))
+for k, v in w2.items():
+    FIRST[k] = list(v.values())[0]
 res = json.load(open(os.path.join(V, "seeded", "RESULTS.json")))
 word = {0: "missed", 1: "caught", 2: "no verdict"}
 print("| seed | change (file) | first round | now | first signature of the deciding check |")
